@@ -118,7 +118,7 @@ static void t_strdup(BP s, size_t l)
     setK("strdup", s, l + 1);
     uint8_t *pi = I[0].put(s, l + 1, PL, MA);
     R[0].put(s, l + 1, PL, MA);
-    for (int fail = 0; fail < 2; fail++)
+    for (int fail = 0; fail < (ONLY ? 1 : 2); fail++)
     {
         M.reset(PL);
         malloc_fail = fail;
@@ -165,16 +165,21 @@ static void t_strndup(BP s, size_t l, size_t n)
     uint8_t *pi = I[0].put(s, sext, PL, MA);
     R[0].put(s, sext, PL, MA);
     M.reset(PL);
-    malloc_fail = 1;
-    char *ri = (char *)1;
-    CALL(ri = igc_strndup((char *)pi, n));
-    malloc_fail = 0;
-    if (ri)
+    char *ri = nullptr;
+    if (!ONLY)
     {
-        K.cls = "malloc_fails";
-        bad("return", "malloc returned NULL but strndup returned non-null");
-        return;
+        malloc_fail = 1;
+        ri = (char *)1;
+        CALL(ri = igc_strndup((char *)pi, n));
+        malloc_fail = 0;
+        if (ri)
+        {
+            K.cls = "malloc_fails";
+            bad("return", "malloc returned NULL but strndup returned non-null");
+            return;
+        }
     }
+    malloc_fail = 0;
     CALL(ri = igc_strndup((char *)pi, n));
     if (!ri || (uint8_t *)ri != malloc_ptr)
         bad("return", "did not return the block obtained from malloc");
@@ -199,6 +204,7 @@ static void t_strndup(BP s, size_t l, size_t n)
 static void t_chr(BP s, size_t l, int c)
 {
     uint8_t *pi = I[0].put(s, l + 1, PL, MA), *pr = R[0].put(s, l + 1, PL, MA);
+    if (want("strchr"))
     {
         setK("strchr", s, l + 1);
         setC(c);
@@ -209,6 +215,7 @@ static void t_chr(BP s, size_t l, int c)
             bad("return", "returned %s%+ld, want %s%+ld", ri ? "s" : "NULL", ri ? off(ri, pi) : 0, rr ? "s" : "NULL", rr ? off(rr, pr) : 0);
         note(F_strchr, ri ? 1 : 0);
     }
+    if (want("strrchr"))
     {
         setK("strrchr", s, l + 1);
         setC(c);
@@ -219,6 +226,7 @@ static void t_chr(BP s, size_t l, int c)
             bad("return", "returned %s%+ld, want %s%+ld", ri ? "s" : "NULL", ri ? off(ri, pi) : 0, rr ? "s" : "NULL", rr ? off(rr, pr) : 0);
         note(F_strrchr, ri ? 1 : 0);
     }
+    if (want("strchrnul"))
     {
         setK("strchrnul", s, l + 1);
         setC(c);
@@ -298,7 +306,7 @@ static void t_search(BP a, size_t al, BP b, size_t bl, bool cased, bool sets)
     uint8_t *ai = I[0].put(a, al + 1, PL, MA), *ar = R[0].put(a, al + 1, PL, MA);
     uint8_t *bi = I[1].put(b, bl + 1, PL, MB), *br = R[1].put(b, bl + 1, PL, MB);
     const char *ncl = bl == 0 ? "empty_needle" : bl > al ? "needle_longer" : "";
-    if (!cased)
+    if (!cased && want("strstr"))
     {
         setK("strstr", a, al + 1, b, bl + 1);
         K.cls = ncl;
@@ -308,7 +316,7 @@ static void t_search(BP a, size_t al, BP b, size_t bl, bool cased, bool sets)
             bad("return", "returned %s%+ld, want %s%+ld", ri ? "hay" : "NULL", ri ? off(ri, ai) : 0, rr ? "hay" : "NULL", rr ? off(rr, ar) : 0);
         note(F_strstr, ri ? 1 : 0);
     }
-    else
+    else if (cased && want("strcasestr"))
     {
         setK("strcasestr", a, al + 1, b, bl + 1);
         K.cls = ncl;
@@ -321,6 +329,7 @@ static void t_search(BP a, size_t al, BP b, size_t bl, bool cased, bool sets)
     if (sets)
     {
         const char *scl = bl == 0 ? "empty_set" : "";
+        if (want("strspn"))
         {
             setK("strspn", a, al + 1, b, bl + 1);
             K.cls = scl;
@@ -330,6 +339,7 @@ static void t_search(BP a, size_t al, BP b, size_t bl, bool cased, bool sets)
                 bad("return", "returned %zu, want %zu", ri, rr);
             note(F_strspn, (ri == al) + 2 * (ri == 0));
         }
+        if (want("strcspn"))
         {
             setK("strcspn", a, al + 1, b, bl + 1);
             K.cls = scl;
@@ -339,6 +349,7 @@ static void t_search(BP a, size_t al, BP b, size_t bl, bool cased, bool sets)
                 bad("return", "returned %zu, want %zu", ri, rr);
             note(F_strcspn, (ri == al) + 2 * (ri == 0));
         }
+        if (want("strpbrk"))
         {
             setK("strpbrk", a, al + 1, b, bl + 1);
             K.cls = scl;
@@ -397,6 +408,8 @@ static void t_lwrupr(BP s, size_t l)
 {
     for (int up = 0; up < 2; up++)
     {
+        if (!want(up ? "strupr" : "strlwr"))
+            continue;
         setK(up ? "strupr" : "strlwr", s, l + 1);
         uint8_t *pi = I[0].put(s, l + 1, PL, MA), *pr = R[0].put(s, l + 1, PL, MA);
         for (size_t i = 0; i < l; i++)
@@ -439,13 +452,17 @@ MC_INIT
     mc::add_check("str_unary", [] {
         init_arenas();
         int L = mc::thorough() ? 7 : 5;
-        int i = mc::choose((int)TS.upto[L]);
-        const Str &s = TS.v[i];
-        mc::describe("string %s: strlen strnlen strcpy strncpy strlcpy strdup strndup strchr strrchr strchrnul, every n in 0..len+3, 12 values of c, both guard placements",
-                     hexs(s.b, s.len).c_str());
-        if (s.len >= 2 || highbit(s.b, s.len))
+        // a case is a run of 64 consecutive operands (every case starts in a fresh process image, see init_arenas)
+        int NTOT = (int)TS.upto[L], CH = 64;
+        int chunk = mc::choose((NTOT + CH - 1) / CH);
+        int ifirst = chunk * CH, ilast = ifirst + CH <= NTOT ? ifirst + CH - 1 : NTOT - 1;
+        mc::describe("strings #%d..#%d (%s .. %s): strlen strnlen strcpy strncpy strlcpy strdup strndup strchr strrchr strchrnul, every n in 0..len+3 and 3 huge n, 12 values of c, both guard placements", ifirst, ilast, hexs(TS.v[ifirst].b, TS.v[ifirst].len).c_str(), hexs(TS.v[ilast].b, TS.v[ilast].len).c_str());
+        if (ilast >= 6)
             mc::nontrivial();
         uint64_t calls = 0;
+        for (int i = ifirst; i <= ilast; i++)
+        {
+        const Str &s = TS.v[i];
         for (PL = AFTER; PL <= BEFORE; PL++)
         {
             t_strlen(s.b, s.len);
@@ -472,6 +489,7 @@ MC_INIT
                 calls += 3;
             }
         }
+        }
         PL = AFTER;
         mc::more_cases(calls - 1, calls - 1);
         flush_notes();
@@ -481,13 +499,17 @@ MC_INIT
     mc::add_check("str_pair", [] {
         init_arenas();
         int L = mc::thorough() ? 7 : 5;
-        int i = mc::choose((int)TS.upto[L]);
-        const Str &a = TS.v[i];
-        mc::describe("string %s x every string of length <=3 over the alphabet: strstr (both orders) strspn strcspn strpbrk strcat strncat(n=0..len+2 and 3 huge n), both guard placements",
-                     hexs(a.b, a.len).c_str());
-        if (a.len >= 2 || highbit(a.b, a.len))
+        // a case is a run of 8 consecutive operands (every case starts in a fresh process image, see init_arenas)
+        int NTOT = (int)TS.upto[L], CH = 8;
+        int chunk = mc::choose((NTOT + CH - 1) / CH);
+        int ifirst = chunk * CH, ilast = ifirst + CH <= NTOT ? ifirst + CH - 1 : NTOT - 1;
+        mc::describe("strings #%d..#%d (%s .. %s) x every string of length <=3 over the alphabet: strstr (both orders) strspn strcspn strpbrk strcat strncat(n=0..len+2 and 3 huge n), both guard placements", ifirst, ilast, hexs(TS.v[ifirst].b, TS.v[ifirst].len).c_str(), hexs(TS.v[ilast].b, TS.v[ilast].len).c_str());
+        if (ilast >= 6)
             mc::nontrivial();
         uint64_t calls = 0;
+        for (int i = ifirst; i <= ilast; i++)
+        {
+        const Str &a = TS.v[i];
         for (PL = AFTER; PL <= BEFORE; PL++)
             for (size_t j = 0; j < TS.upto[3]; j++)
             {
@@ -511,6 +533,7 @@ MC_INIT
                     calls++;
                 }
             }
+        }
         PL = AFTER;
         mc::more_cases(calls - 1, calls - 1);
         flush_notes();
@@ -556,13 +579,17 @@ MC_INIT
         int Lh = mc::thorough() ? 4 : 3;  // haystack
         int Ln = mc::thorough() ? 3 : 2;  // needle
         int Lu = mc::thorough() ? 5 : 4;  // strlwr/strupr
-        int i = mc::choose((int)TC.upto[Lu]);
-        const Str &a = TC.v[i];
-        mc::describe("%s: strlwr strupr; strcasecmp/strncasecmp against every string <=%d; strcasestr with every needle <=%d; alphabet a A z Z @ [ ` { c1 e1 ff",
-                     hexs(a.b, a.len).c_str(), Lp, Ln);
-        if (a.len >= 1)
+        // a case is a run of 64 consecutive operands (every case starts in a fresh process image, see init_arenas)
+        int NTOT = (int)TC.upto[Lu], CH = 64;
+        int chunk = mc::choose((NTOT + CH - 1) / CH);
+        int ifirst = chunk * CH, ilast = ifirst + CH <= NTOT ? ifirst + CH - 1 : NTOT - 1;
+        mc::describe("strings #%d..#%d (%s .. %s): strlwr strupr; strcasecmp/strncasecmp against every string of the pair bound; strcasestr with every needle of the needle bound; alphabet a A z Z @ [ ` { c1 e1 ff", ifirst, ilast, hexs(TC.v[ifirst].b, TC.v[ifirst].len).c_str(), hexs(TC.v[ilast].b, TC.v[ilast].len).c_str());
+        if (ilast >= 6)
             mc::nontrivial();
         uint64_t calls = 0;
+        for (int i = ifirst; i <= ilast; i++)
+        {
+        const Str &a = TC.v[i];
         for (PL = AFTER; PL <= BEFORE; PL++)
         {
             t_lwrupr(a.b, a.len);
@@ -592,6 +619,7 @@ MC_INIT
                     t_search(a.b, a.len, b.b, b.len, true, false);
                     calls++;
                 }
+        }
         }
         PL = AFTER;
         mc::more_cases(calls - 1, calls - 1);
@@ -864,6 +892,91 @@ MC_INIT
         }
         PL = AFTER;
         restore_window();
+        unsigned long calls = ncalls - c_before;
+        if (calls)
+            mc::more_cases(calls - 1, calls - 1);
+        flush_notes();
+    });
+
+    // (7) HISTORY: every stateless str* function called 65600 times in ONE process (fresh at the start of the case), each
+    //     result compared with glibc's. See c08_common.hpp (hist_event) for the schedule.
+    mc::add_check("str_history", [] {
+        init_arenas();
+        static const char *FNS[23] = {"strlen", "strnlen", "strcpy", "strncpy", "strlcpy", "strdup", "strndup", "strchr", "strrchr", "strchrnul", "strcmp", "strncmp",
+                                      "strcasecmp", "strncasecmp", "strstr", "strcasestr", "strspn", "strcspn", "strpbrk", "strcat", "strncat", "strlwr", "strupr"};
+        int c0 = mc::choose(23 * 2);
+        int fi = c0 / 2;
+        PL = c0 % 2;
+        ONLY = FNS[fi];
+        mc::describe("%s called %d times in one process: arguments rotate with period 7; a byte used in one call only comes back 254,255,256,257,510,511,512,65534..65537 calls later; operands %s a guard page",
+                     ONLY, HIST_STEPS, PL == AFTER ? "end at" : "start after");
+        mc::nontrivial();
+        static const char *CA[7] = {"abcd", "", "bcda", "a", "dcba", "abab", "cdcdab"};
+        static const char *CB[7] = {"c", "da", "", "ab", "b", "dc", "abcd"};
+        unsigned long c_before = ncalls;
+        for (int k = 0; k < HIST_STEPS && nbad == 0; k++)
+        {
+            HistEv ev = hist_event(k);
+            uint8_t a[16], b[16];
+            size_t al, bl, n;
+            int c;
+            if (ev.kind == 0)
+            {
+                al = strlen(CA[ev.q]);
+                bl = strlen(CB[ev.q]);
+                memcpy(a, CA[ev.q], al + 1);
+                memcpy(b, CB[ev.q], bl + 1);
+                n = k % 5;
+                c = "abcde\0x"[k % 7];
+            }
+            else
+            {
+                uint8_t r = (uint8_t)(0x81 + ev.q); // the rare byte of this gap
+                al = 5;
+                a[0] = 'a', a[1] = 'b', a[2] = r, a[3] = 'c', a[4] = 'd', a[5] = 0;
+                if (ev.kind == 1)
+                {
+                    bl = 1;
+                    b[0] = r, b[1] = 0;
+                    c = r;
+                    n = 3;
+                }
+                else
+                {
+                    bl = 1;
+                    b[0] = 'd', b[1] = 0;
+                    c = 'd';
+                    n = 5;
+                }
+            }
+            switch (fi)
+            {
+            case 0: t_strlen(a, al); break;
+            case 1: t_strnlen(a, al, n); break;
+            case 2: t_strcpy(a, al); break;
+            case 3: t_strncpy(a, al, n); break;
+            case 4: t_strlcpy(a, al, n); break;
+            case 5: t_strdup(a, al); break;
+            case 6: t_strndup(a, al, n); break;
+            case 7:
+            case 8:
+            case 9: t_chr(a, al, c); break;
+            case 10: t_cmp(a, al, b, bl); break;
+            case 11: t_ncmp(a, al, b, bl, n); break;
+            case 12: t_casecmp(a, al, b, bl); break;
+            case 13: t_ncasecmp(a, al, b, bl, n); break;
+            case 14: t_search(a, al, b, bl, false, false); break;
+            case 15: t_search(a, al, b, bl, true, false); break;
+            case 16:
+            case 17:
+            case 18: t_search(a, al, b, bl, false, true); break;
+            case 19: t_cat(a, al, b, bl); break;
+            case 20: t_ncat(a, al, b, bl, n); break;
+            default: t_lwrupr(a, al); break;
+            }
+        }
+        ONLY = nullptr;
+        PL = AFTER;
         unsigned long calls = ncalls - c_before;
         if (calls)
             mc::more_cases(calls - 1, calls - 1);
